@@ -419,6 +419,12 @@ class SymClient(Client):
             r = self.repo.resolve_expr(fn, self.mod, self.cls)
         except NotConst:
             return None
+        if isinstance(r, ClassRef):
+            try:
+                if self.repo.is_value_class(self.repo.cls(r.module, r.name)):
+                    return None      # a record type: its instances are their constructor calls
+            except AnalysisError:
+                pass
         return r
 
     def _dispatch_targets(self, term: str):
